@@ -14,6 +14,14 @@
 (* not exist at all.  Damage hits one field of one record (or an index     *)
 (* file) with a value class derived from the codec's arithmetic.           *)
 (*                                                                         *)
+(* The pre-crash state may be the result of a HISTORY (img.hist): rounds   *)
+(* of "append some entries, then TruncateLog(keep)", followed by the       *)
+(* appends that complete img.sizes.  The log that the history defines is   *)
+(* img.sizes (ids 0..n-1); the entries that a truncation removed have ids  *)
+(* >= 200 and must never be seen again.  What a truncation leaves in the   *)
+(* segment files (Residue) is modelled in the shape of                     *)
+(* readWriteSegment.Truncate / wal.TruncateLog.                            *)
+(*                                                                         *)
 (* Two descriptions of recovery live here:                                 *)
 (*   RecoveryOk(img, out)  the property (C10), declarative;                *)
 (*   Model(img)            recovery in the shape of the implementation     *)
@@ -33,7 +41,8 @@ CONSTANTS SizeOverflowChecked, \* header size near 2^32 is rejected (FALSE: size
           IdxRobust,           \* a missing / too short index file is rebuilt from the txn file (FALSE: error / panic)
           ZeroTail,            \* recovery clears the writable segment behind the recovered end (FALSE: stale records stay)
           RolloverFlushes,     \* a segment is flushed before its successor is created (FALSE: closed segments can be torn)
-          EmptyReported        \* a zero size field at or below the commit offset with data behind it is an error (FALSE: end of log)
+          EmptyReported,       \* a zero size field at or below the commit offset with data behind it is an error (FALSE: end of log)
+          TruncClearsTail      \* Truncate zeroes the whole removed tail of the segment (FALSE: only the header of the first removed record)
 
 None == [rec |-> -1, field |-> "none", cls |-> "none", at |-> -1]
 
@@ -44,15 +53,16 @@ N(img) == Len(img.sizes)
 (* Layout: segment number (1..) and byte position of every record.         *)
 (* readwrite_segment.go:HasSpace, wal_impl.go:rolloverSegment.             *)
 (***************************************************************************)
-RECURSIVE LayFrom(_, _, _, _)
-LayFrom(img, i, seg, cur) ==
-    IF i > N(img) THEN <<>>
-    ELSE LET len  == H(img) + img.sizes[i]
+RECURSIVE LayFrom(_, _, _, _, _)
+LayFrom(img, sz, i, seg, cur) ==
+    IF i > Len(sz) THEN <<>>
+    ELSE LET len  == H(img) + sz[i]
              roll == cur + len > img.seg
              s    == IF roll THEN seg + 1 ELSE seg
              p    == IF roll THEN 0 ELSE cur
-         IN <<[seg |-> s, pos |-> p]>> \o LayFrom(img, i + 1, s, p + len)
-Lay(img) == LayFrom(img, 1, 1, 0)
+         IN <<[seg |-> s, pos |-> p]>> \o LayFrom(img, sz, i + 1, s, p + len)
+LayOf(img, sz) == LayFrom(img, sz, 1, 1, 0)       \* layout of a log with the payload sizes sz
+Lay(img) == LayOf(img, img.sizes)
 NSeg(img) == IF N(img) = 0 THEN 1 ELSE Lay(img)[N(img)].seg
 Live(img) == NSeg(img) - img.lost                     \* segment files present; the last one is writable
 RecsOf(img, s) == {i \in 1..N(img) : Lay(img)[i].seg = s}
@@ -61,6 +71,111 @@ MaxOf(S) == CHOOSE x \in S : \A y \in S : y <= x
 FirstRec(img, s) == MinOf(RecsOf(img, s))
 LastRec(img, s) == MaxOf(RecsOf(img, s))
 Ids(m) == [k \in 1..m |-> k - 1]
+
+(***************************************************************************)
+(* History: how the pre-crash state came about.  img.hist is a sequence of *)
+(* rounds [app |-> <<payload sizes>>, keep |-> k]: the entries `app` are   *)
+(* appended to the log, then TruncateLog(k) removes every entry above      *)
+(* offset k (k = -1: the whole log, wal.Clear).  After the last round the  *)
+(* entries that complete img.sizes are appended.  The layout of a log does *)
+(* not depend on its history (a truncation puts the write position back at *)
+(* the end of record k and the rollover rule is a function of positions),  *)
+(* so Lay(img) stays the layout of the final log.                          *)
+(*                                                                         *)
+(* An entry appended in round r at offset o is part of the final log iff   *)
+(* no later truncation removes it; then its id is o.  Otherwise its id is  *)
+(* StaleId(r, o): an entry that the history REMOVED.  The property speaks  *)
+(* about ids 0..n-1 (and 100+j for the post phase) only: an entry with a   *)
+(* stale id in a recovered log is a resurrected entry = fabricated.        *)
+(***************************************************************************)
+NR(img) == Len(img.hist)
+StaleId(r, o) == 200 + 20 * (r - 1) + o
+IsStaleId(id) == id >= 200
+
+\* payload sizes of the log after r rounds / at the moment of the truncation of round r
+RECURSIVE HLogAfter(_, _)
+HLogAfter(hist, r) ==
+    IF r = 0 THEN <<>>
+    ELSE LET b == HLogAfter(hist, r - 1) \o hist[r].app
+         IN SubSeq(b, 1, IF hist[r].keep + 1 < Len(b) THEN hist[r].keep + 1 ELSE Len(b))
+HLogBefore(hist, r) == HLogAfter(hist, r - 1) \o hist[r].app
+HFinal(hist) == HLogAfter(hist, Len(hist))
+LogAfter(img, r) == HLogAfter(img.hist, r)
+LogBefore(img, r) == HLogBefore(img.hist, r)
+
+\* id of the entry at offset o of LogBefore(img, r)
+BornIn(img, r, o) == MaxOf({q \in 1..r : o >= Len(LogAfter(img, q - 1))})     \* the round that appended it
+EntryIdAt(img, r, o) ==
+    LET q == BornIn(img, r, o)
+    IN IF \A t \in q..NR(img) : o <= img.hist[t].keep THEN o ELSE StaleId(q, o)
+
+HistOK(img) ==
+    /\ (NR(img) > 0) => img.codec = "v2"                    \* the running code writes format v2 only
+    /\ \A r \in 1..NR(img) :
+          /\ img.hist[r].app # <<>>
+          /\ \A j \in 1..Len(img.hist[r].app) : img.hist[r].app[j] >= 1 /\ H(img) + img.hist[r].app[j] <= img.seg
+          /\ img.hist[r].keep \in -1..(Len(LogBefore(img, r)) - 1)
+          /\ Len(LogBefore(img, r)) <= 20                    \* StaleId is injective
+    /\ LET L == LogAfter(img, NR(img))
+       IN Len(L) <= N(img) /\ SubSeq(img.sizes, 1, Len(L)) = L
+    \* Truncate flushes the segment and the kept entries count as synced (wal.TruncateLog)
+    /\ (NR(img) > 0) => img.synced >= img.hist[NR(img)].keep
+
+(***************************************************************************)
+(* What the history leaves in the segment files besides the log: intact    *)
+(* records of removed entries ("stale" records [seg, pos, len, id]).       *)
+(*   readWriteSegment.Append    overwrites whatever is at its position;    *)
+(*   wal.TruncateLog(k)         deletes the segment files above the        *)
+(*       segment sk of entry k; when sk is not the current segment it is   *)
+(*       reopened as the writable one (newReadWriteSegment: scan, which    *)
+(*       also walks into stale records chained to the live ones, and clear *)
+(*       the rest - ZeroTail); then                                        *)
+(*   readWriteSegment.Truncate(k)  clears [end of record k, write position)*)
+(*       when TruncClearsTail, and only the header of the first removed    *)
+(*       record otherwise: the later removed records stay intact.          *)
+(* A partly overwritten / partly cleared record is garbage: a scan that    *)
+(* arrives there finds a corrupt record above the commit offset and stops. *)
+(***************************************************************************)
+Overlaps(x, s, pos, len) == x.seg = s /\ pos < x.pos + x.len /\ x.pos < pos + len
+StaleAt(st, s, p) == {x \in st : x.seg = s /\ x.pos = p}
+RECURSIVE ChainSeq(_, _, _)
+ChainSeq(st, s, p) ==            \* the stale records a scan walks through when it arrives at position p of segment s
+    IF StaleAt(st, s, p) = {} THEN <<>>
+    ELSE LET x == CHOOSE y \in StaleAt(st, s, p) : TRUE IN <<x>> \o ChainSeq(st, s, p + x.len)
+RECURSIVE SumLen(_)
+SumLen(q) == IF q = <<>> THEN 0 ELSE q[1].len + SumLen(Tail(q))
+
+RECURSIVE Residue(_, _)
+Residue(img, r) ==               \* stale records on disk right after the truncation of round r
+    IF r = 0 THEN {}
+    ELSE LET old  == Residue(img, r - 1)
+             n0   == Len(LogAfter(img, r - 1))
+             bef  == LogBefore(img, r)
+             nb   == Len(bef)
+             lay  == LayOf(img, bef)
+             k    == img.hist[r].keep
+             RL(i) == H(img) + bef[i]
+             o1   == {x \in old : ~\E i \in (n0 + 1)..nb : Overlaps(x, lay[i].seg, lay[i].pos, RL(i))}
+         IN IF k = -1 THEN {}                                         \* wal.Clear removes the directory
+            ELSE LET sk      == lay[k + 1].seg
+                     cur     == lay[nb].seg
+                     endk    == lay[k + 1].pos + RL(k + 1)
+                     lastSk  == MaxOf({i \in 1..nb : lay[i].seg = sk})
+                     liveEnd == lay[lastSk].pos + RL(lastSk)
+                     chain   == IF sk < cur THEN ChainSeq(o1, sk, liveEnd) ELSE <<>>
+                     cfo     == liveEnd + SumLen(chain)                \* write position when Truncate runs
+                     o2      == IF sk < cur /\ ZeroTail THEN {x \in o1 : x.seg # sk \/ x.pos < cfo} ELSE o1
+                     clrTo   == IF TruncClearsTail THEN cfo
+                                ELSE IF endk + H(img) < cfo THEN endk + H(img) ELSE cfo
+                     removed == {[seg |-> sk, pos |-> lay[i].pos, len |-> RL(i), id |-> EntryIdAt(img, r, i - 1)] :
+                                    i \in (k + 2)..lastSk}
+                 IN {x \in o2 \cup removed : x.seg < sk \/ (x.seg = sk /\ x.pos >= clrTo)}
+
+\* stale records in the files of the pre-crash state: the appends after the last round overwrite some
+FinalResidue(img) ==
+    LET old == Residue(img, NR(img))
+        n0  == Len(LogAfter(img, NR(img)))
+    IN {x \in old : ~\E i \in (n0 + 1)..N(img) : Overlaps(x, Lay(img)[i].seg, Lay(img)[i].pos, H(img) + img.sizes[i])}
 
 (***************************************************************************)
 (* Well-formed images (the domain of the crash model).                     *)
@@ -99,6 +214,7 @@ ImageOK(img) ==
                 /\ img.dmg.at \in 0..(N(img) - 1) /\ img.dmg.at # img.dmg.rec
                 /\ img.sizes[img.dmg.at + 1] = img.sizes[img.dmg.rec + 1]
     /\ \A j \in 1..Len(img.post) : 12 + img.post[j] <= img.seg      \* new segments are always written in format v2
+    /\ HistOK(img)
 
 \* the damage changes a byte
 Damaged(img) == img.dmg.field # "none" /\ ~(img.dmg.field = "size" /\ img.dmg.cls = "exact")
@@ -256,9 +372,17 @@ Recovered(img) ==
         hro  == IF live > 1 THEN OpenRO(img, live - 1) ELSE [res |-> "ok", upto |-> 0]
         rw   == IF N(img) = 0 THEN [res |-> "ok", upto |-> 0]
                 ELSE Scan(img, FirstRec(img, live), LastRec(img, live), TRUE)
-    IN IF hro.res # "ok" THEN [res |-> hro.res, ents |-> <<>>, upto |-> 0]
-       ELSE IF rw.res # "ok" THEN [res |-> rw.res, ents |-> <<>>, upto |-> 0]
-       ELSE ReadAll(img, 1, rw.upto, <<>>) @@ [upto |-> rw.upto]
+        \* the scan accepted every live record of the writable segment: it goes on at the end of the last one and
+        \* accepts the stale records it finds there (a record is validated against the previous-crc field of its own
+        \* header only, and a stale record is above the commit offset or it would not have been removed)
+        lr   == LastRec(img, live)
+        ch   == IF N(img) > 0 /\ rw.res = "ok" /\ rw.upto = lr
+                THEN ChainSeq(FinalResidue(img), live, Lay(img)[lr].pos + H(img) + img.sizes[lr]) ELSE <<>>
+    IN IF hro.res # "ok" THEN [res |-> hro.res, ents |-> <<>>, upto |-> 0, extra |-> 0]
+       ELSE IF rw.res # "ok" THEN [res |-> rw.res, ents |-> <<>>, upto |-> 0, extra |-> 0]
+       ELSE LET ra == ReadAll(img, 1, rw.upto, <<>>)
+            IN IF ra.res # "ok" THEN ra @@ [upto |-> rw.upto, extra |-> 0]
+               ELSE [res |-> "ok", ents |-> ra.ents \o [k \in 1..Len(ch) |-> ch[k].id], upto |-> rw.upto, extra |-> SumLen(ch)]
 
 \* appends after the recovery, clean close, reopen: the writable segment is scanned again
 RECURSIVE PostLay(_, _, _, _)
@@ -276,7 +400,7 @@ Model(img) ==
                  last |-> IF r.res = "ok" THEN Len(r.ents) - 1 ELSE -1]
     IN IF r.res # "ok" \/ img.post = <<>> THEN base @@ none
        ELSE LET inRw == r.upto >= 1 /\ Lay(img)[r.upto].seg = live
-                cur0 == IF N(img) > 0 /\ inRw THEN Lay(img)[r.upto].pos + H(img) + img.sizes[r.upto] ELSE 0
+                cur0 == IF N(img) > 0 /\ inRw THEN Lay(img)[r.upto].pos + H(img) + img.sizes[r.upto] + r.extra ELSE 0
                 pl   == PostLay(img, 1, cur0, FALSE)
                 new  == [j \in 1..Len(img.post) |-> 100 + j - 1]
                 \* a stale record that starts exactly where the new data ends
